@@ -181,6 +181,7 @@ fn b_bounds_full(kind: u8, two: bool) {
     let min: usize = kani::any();
     let max: usize = kani::any();
     kani::assume(min <= max && max >= 1);
+    kani::cover!(min == 0, "min zero");
     let blen = if two { 2 } else { 1 };
     let child = Operation::from(Atom::new(if two { vec![c1, c2] } else { vec![c1] }));
     let op = match kind {
@@ -216,6 +217,12 @@ fn b_bounds_full(kind: u8, two: bool) {
     let mml = op.get_minimum_match_length();
     kani::assert(ml.is_none() || min == max, "C05.repeat-bounds.match-length-only-when-fixed");
     kani::assert(min > usize::MAX / blen || mml == min * blen, "C05.repeat-bounds.minimum-length");
+    // static nullability fact (feeds the empty-match rejection and quantifier lowering)
+    let zls = op.matches_empty_string();
+    kani::assert(
+        zls == if min == 0 { crate::operation::MATCHES_ZLS_ANYWHERE } else { crate::operation::MATCHES_ZLS_NEVER },
+        "C01.repeat-bounds.static-nullability-iff-min-zero",
+    );
     std::mem::forget(op);
     std::mem::forget(m);
     std::mem::forget(p);
